@@ -28,7 +28,14 @@ type deferRec struct {
 	recv  *Val
 }
 
+// privBox: a heap box no callee can reach (see privateBox)
+type privBox struct {
+	typ types.Type
+	ref T
+}
+
 type State struct {
+	private []privBox
 	locals map[localKey]Val
 	heap   map[string]T // heap key -> current array term (absent = initial)
 	top    T            // allocation frontier: every live reference is <= top
@@ -102,6 +109,7 @@ func (s *State) clone() *State {
 	n.ghostEpoch = s.ghostEpoch
 	n.chain = append([]epochStep(nil), s.chain...)
 	n.defers = append([]deferRec(nil), s.defers...)
+	n.private = append([]privBox(nil), s.private...)
 	return n
 }
 
@@ -159,12 +167,12 @@ func (c *Ctx) heapEpoch(epoch int, key, sort string) T {
 			if strings.HasPrefix(inner, "(Array") {
 				ks, _ := innerSort(inner)
 				x := "(select (select " + name + " r) i)"
-				if f := c.leafFact(l, x, top); f != "true" {
+				if f := allocGuard(l, c.leafFact(l, x, top), top); f != "true" {
 					c.sc.assume(fmt.Sprintf("(forall ((r Int) (i %s)) (! %s :pattern (%s)))", ks, f, x))
 				}
 			} else if strings.HasPrefix(sort, "(Array") {
 				x := "(select " + name + " r)"
-				if f := c.leafFact(l, x, top); f != "true" {
+				if f := allocGuard(l, c.leafFact(l, x, top), top); f != "true" {
 					c.sc.assume(fmt.Sprintf("(forall ((r Int)) (! %s :pattern (%s)))", f, x))
 				}
 			}
@@ -207,23 +215,23 @@ func (c *Ctx) noteRef(key, sort string, l Leaf) {
 		rh := c.heapInit(rk, sort)
 		if strings.HasPrefix(inner, "(Array") {
 			ks, _ := innerSort(inner)
-			c.sc.assume(fmt.Sprintf("(forall ((r Int) (i %s)) (! (=> (= (select (select %s r) i) 0) (= (select (select %s r) i) 0)) :pattern ((select (select %s r) i))))", ks, rh, h, h))
+			c.sc.assumeG(fmt.Sprintf("(forall ((r Int) (i %s)) (! (=> (= (select (select %s r) i) 0) (= (select (select %s r) i) 0)) :pattern ((select (select %s r) i))))", ks, rh, h, h))
 		} else {
-			c.sc.assume(fmt.Sprintf("(forall ((r Int)) (! (=> (= (select %s r) 0) (= (select %s r) 0)) :pattern ((select %s r))))", rh, h, h))
+			c.sc.assumeG(fmt.Sprintf("(forall ((r Int)) (! (=> (= (select %s r) 0) (= (select %s r) 0)) :pattern ((select %s r))))", rh, h, h))
 		}
 	}
 	if strings.HasPrefix(inner, "(Array") {
 		ks, _ := innerSort(inner)
 		x := "(select (select " + h + " r) i)"
-		f := c.leafFact(l, x, c.entryTop)
+		f := allocGuard(l, c.leafFact(l, x, c.entryTop), c.entryTop)
 		if f != "true" {
-			c.sc.assume(fmt.Sprintf("(forall ((r Int) (i %s)) (! %s :pattern (%s)))", ks, f, x))
+			c.sc.assumeG(fmt.Sprintf("(forall ((r Int) (i %s)) (! %s :pattern (%s)))", ks, f, x))
 		}
 	} else {
 		x := "(select " + h + " r)"
-		f := c.leafFact(l, x, c.entryTop)
+		f := allocGuard(l, c.leafFact(l, x, c.entryTop), c.entryTop)
 		if f != "true" {
-			c.sc.assume(fmt.Sprintf("(forall ((r Int)) (! %s :pattern (%s)))", f, x))
+			c.sc.assumeG(fmt.Sprintf("(forall ((r Int)) (! %s :pattern (%s)))", f, x))
 		}
 	}
 }
@@ -234,6 +242,20 @@ func (c *Ctx) heapSet(st *State, key, sort string, t T) {
 }
 
 // ---- leaf-level facts ----
+
+// allocGuard: reference-valued cells are constrained only for allocated objects
+// (r <= top). Cells of objects that do not exist yet are arbitrary, so a
+// callee's postcondition about the fields of a fresh object it returns cannot
+// contradict what is assumed about the heap before the call.
+func allocGuard(l Leaf, f T, top T) T {
+	switch l.Kind {
+	case lkRef, lkSlRef, lkIfRef:
+		if top != "" && f != "true" {
+			return imp(le("r", top), f)
+		}
+	}
+	return f
+}
 
 // leafFact returns the type-invariant fact for one leaf term.
 func (c *Ctx) leafFact(l Leaf, x T, top T) T {
@@ -350,7 +372,7 @@ func (c *Ctx) onceFact(key string, fact T) {
 		return
 	}
 	c.factsDone[key] = true
-	c.sc.assume(fact)
+	c.sc.assumeG(fact)
 }
 
 // loadStruct reads the struct value of type t living at object ref.
@@ -582,6 +604,22 @@ func (c *Ctx) merge(ins []edgeIn) *State {
 		return ins[0].st.clone()
 	}
 	out := newState()
+	// boxes private on every incoming path
+	for _, pb := range ins[0].st.private {
+		all := true
+		for _, in := range ins[1:] {
+			found := false
+			for _, q := range in.st.private {
+				if q.ref == pb.ref {
+					found = true
+				}
+			}
+			all = all && found
+		}
+		if all {
+			out.private = append(out.private, pb)
+		}
+	}
 	// locals
 	lkeys := map[localKey]bool{}
 	for _, in := range ins {
